@@ -23,7 +23,8 @@ where
     let result = f();
     if perf {
         let elapsed = now.elapsed().as_micros() as f64 / 1000.0;
-        println!("{}: {:.2}ms", name, elapsed);
+        // Not to stdout: it is the image with `-c`.
+        eprintln!("{}: {:.2}ms", name, elapsed);
     }
 
     result
@@ -106,7 +107,9 @@ fn process() -> Result<(), String> {
         OutputTo::Stdout => {
             use std::io::Write;
             let buf = img.encode_png().map_err(|e| e.to_string())?;
-            std::io::stdout().write_all(&buf).unwrap();
+            std::io::stdout()
+                .write_all(&buf)
+                .map_err(|e| e.to_string())?;
         }
         OutputTo::File(ref file) => {
             timed(args.perf, "Saving", || {
@@ -742,7 +745,7 @@ fn render_svg(args: &Args, tree: &usvg::Tree) -> Result<tiny_skia::Pixmap, Strin
 
     if args.perf {
         let elapsed = now.elapsed().as_micros() as f64 / 1000.0;
-        println!("Rendering: {:.2}ms", elapsed);
+        eprintln!("Rendering: {:.2}ms", elapsed);
     }
 
     Ok(img)
